@@ -38,6 +38,29 @@ func maxUpdateMessageLength(options []*bgp.MarshallingOption) int {
 	return bgp.BGP_MAX_MESSAGE_LENGTH
 }
 
+// wireAttrsLen is the number of octets the attributes take in an UPDATE sent
+// under the options. For a peer without the 4-octet AS capability
+// (Use2ByteAS) the message is rewritten before it is sent: 2-octet AS_PATH and
+// AGGREGATOR, plus AS4_PATH and AS4_AGGREGATOR when they are needed, which
+// can be more than the attributes take now.
+func wireAttrsLen(attrs []bgp.PathAttributeInterface, options []*bgp.MarshallingOption) int {
+	for _, opt := range options {
+		if opt != nil && opt.Use2ByteAS {
+			msg := &bgp.BGPUpdate{PathAttributes: attrs}
+			// copies the slice; the attributes themselves are not touched
+			UpdatePathAttrs2ByteAs(msg)
+			UpdatePathAggregator2ByteAs(msg)
+			attrs = msg.PathAttributes
+			break
+		}
+	}
+	n := 0
+	for _, a := range attrs {
+		n += a.Len()
+	}
+	return n
+}
+
 func UpdatePathAttrs2ByteAs(msg *bgp.BGPUpdate) {
 	ps := msg.PathAttributes
 	msg.PathAttributes = make([]bgp.PathAttributeInterface, len(ps))
@@ -510,10 +533,7 @@ func (p *packerMP) pack(options ...*bgp.MarshallingOption) []*bgp.BGPMessage {
 				}
 			}
 
-			attrsLen := 0
-			for _, attr := range attrsWithoutMPReach {
-				attrsLen += attr.Len()
-			}
+			attrsLen := wireAttrsLen(attrsWithoutMPReach, options)
 
 			baseReachLen := 19 + 2 + 2 + attrsLen
 			nexthops, _ := getMPReachNexthops(paths[0])
@@ -666,10 +686,7 @@ func (p *packerV4) pack(options ...*bgp.MarshallingOption) []*bgp.BGPMessage {
 					attrs_without_mp = append(attrs_without_mp, attr)
 				}
 			}
-			attrsLen := 0
-			for _, a := range attrs_without_mp {
-				attrsLen += a.Len()
-			}
+			attrsLen := wireAttrsLen(attrs_without_mp, options)
 
 			loop(attrsLen, paths, func(nlris []bgp.PathNLRI) {
 				msgs = append(msgs, bgp.NewBGPUpdateMessage(nil, attrs_without_mp, nlris))
